@@ -71,7 +71,7 @@ class FileSystemController:
 
     @_bat.setter
     def _bat(self, bat: list[BlockAllocation]):
-        batSector = bytearray(256)
+        batSector = bytearray(self._diskSide.tracks[20].sectors[1].dataOfPayload)
         batSector[1 : len(bat) + 1] = [b.status for b in bat]
         self._diskSide.tracks[20].sectors[1].dataOfPayload = batSector
 
@@ -252,6 +252,7 @@ class FileSystemController:
             )
             for i in range(160)
         ]
+        self._diskSide.tracks[20].sectors[1].dataOfPayload = bytes(256)
         self._bat = bat
 
         # fill catalog sectors with 0xff
